@@ -50,11 +50,25 @@ func scanIntoMap(mapValue map[string]interface{}, values []interface{}, columns 
 	}
 }
 
+// isPlainStruct reports whether t (or what it points to) is a struct no column value can be scanned
+// into as a whole: a lone column without a readable field then has nowhere to go and is dropped,
+// instead of being scanned into the record itself.
+func isPlainStruct(t reflect.Type) bool {
+	for t.Kind() == reflect.Ptr {
+		t = t.Elem()
+	}
+	if t.Kind() != reflect.Struct || t.ConvertibleTo(schema.TimeReflectType) {
+		return false
+	}
+	_, isScanner := reflect.New(t).Interface().(sql.Scanner)
+	return !isScanner
+}
+
 func (db *DB) scanIntoStruct(rows Rows, reflectValue reflect.Value, values []interface{}, fields []*schema.Field, joinFields [][]*schema.Field) {
 	for idx, field := range fields {
 		if field != nil {
 			values[idx] = field.NewValuePool.Get()
-		} else if len(fields) == 1 {
+		} else if len(fields) == 1 && !isPlainStruct(reflectValue.Type()) {
 			if reflectValue.CanAddr() {
 				values[idx] = reflectValue.Addr().Interface()
 			} else {
